@@ -19,6 +19,20 @@ func (self Analyzer) importGraphIsCyclicInner(originalStart string, start string
 		if node == originalStart {
 			return append(path, node), true
 		}
+
+		// A module which is already part of the current path must not be visited again:
+		// otherwise, a cycle which does not include `originalStart` would cause infinite recursion.
+		alreadyOnPath := false
+		for _, visited := range path {
+			if visited == node {
+				alreadyOnPath = true
+				break
+			}
+		}
+		if alreadyOnPath {
+			continue
+		}
+
 		if path, cyclic := self.importGraphIsCyclicInner(originalStart, node, append(path, node)); cyclic {
 			return path, cyclic
 		}
